@@ -7,12 +7,10 @@ import (
 	"math"
 
 	"encoding/json"
-	"github.com/tdewolff/canvas"
 	"os"
 	"path/filepath"
 	"regexp"
 	"strconv"
-	"strings"
 	"verif/internal/cv"
 	"verif/internal/fw"
 	"verif/internal/oracle"
@@ -30,47 +28,99 @@ const C = 2.0
 // 3e-3 = that maximum * 1.3 rounded up; errors in (1e-3, 3e-3] are tallied as an outcome class.
 const ReplaceArcsRel = 3e-3
 
-// calibrated constants (DESIGN.md 2.5): per (shape class, t/scale) cell the check allows
-// max(C, 1.3 * the maximum observed once on the pinned tree); cells that are not calibrated
-// (collinear control points, cusps, ellipse arcs: error/t unbounded) keep C.
-var calib = func() map[string]float64 {
+// knownCases (c03_known_cases.json, written once from runs on the pinned tree, never at check
+// time) lists the inputs for which the unchanged tree breaks the statement, one entry per
+// (input path, tolerance, violation class) with the error/t it shows there (0 for structural
+// classes). A violation is a known finding only if its very input is listed for that class and its
+// error/t is at most 1.05 x the listed value; a new input, a new class or a larger error is reported.
+var knownCases = func() map[string]float64 {
 	out := map[string]float64{}
-	b, err := os.ReadFile(filepath.Join(fw.Root(), "calibration.json"))
+	b, err := os.ReadFile(filepath.Join(fw.Root(), "c03_known_cases.json"))
 	if err != nil {
+		// without the list the unchanged tree alarms: a harness error, never a verdict
+		knownErr = err
 		return out
 	}
 	var f struct {
-		C03 struct {
-			FlattenC map[string]float64 `json:"flatten_c"`
-		}
+		Cases map[string]float64 `json:"cases"`
 	}
-	if json.Unmarshal(b, &f) == nil {
-		out = f.C03.FlattenC
+	if err := json.Unmarshal(b, &f); err != nil {
+		knownErr = err
+		return out
 	}
-	return out
+	return f.Cases
 }()
 
-func cLimit(shapeClass string, tRel float64) float64 {
-	if v, ok := calib[fmt.Sprintf("%s@t=%g*scale", shapeClass, tRel)]; ok && 1.3*v > C {
-		return 1.3 * v
+var knownErr error
+
+// set by checkFlatten for the violations it raises (workers are single-threaded)
+var curT, curRatio float64
+
+// bucketOf names the input class the known findings are keyed by ("" = none of them).
+func bucketOf(sps []oracle.Subpath) string {
+	thin, ell := false, false
+	for _, sp := range sps {
+		for _, sg := range sp.Segs {
+			if sg.Kind == oracle.CmdArc && sg.Rx != sg.Ry {
+				if sg.Rx >= 10*sg.Ry || sg.Ry >= 10*sg.Rx {
+					thin = true
+				} else {
+					ell = true
+				}
+			}
+		}
 	}
-	return C
+	switch {
+	case thin:
+		return "thin-ellipse-arc"
+	case ell:
+		return "ellipse-arc"
+	}
+	if len(sps) == 1 && len(sps[0].Segs) == 1 {
+		switch curvefam.Class(sps[0].Segs[0]) {
+		case "quad-collinear", "cube-collinear", "quad-closed", "cube-closed":
+			return "collinear-or-closed-bezier"
+		case "cube-cusp":
+			return "cusp-bezier"
+		}
+	}
+	return "other"
 }
 
 func viol(r *fw.R, sps []oracle.Subpath, class, detail string) {
-	// (the half-ellipse shortcut for arcs whose chord equals rx was repaired, F27: such arcs are
-	// classified like any other arc)
 	r.Count("violations:"+class, 1)
+	if curT > 0 {
+		// what the known-finding predicates read: the input class and the error/t of this violation
+		detail += fmt.Sprintf(" {bucket=%s ratio=%.6g}", bucketOf(sps), curRatio)
+	}
 	r.Violate(class, detail)
 }
 
 // shape names the input for class suffixes and maxima: the lattice class of a single segment,
 // or the kinds present.
 func shape(sps []oracle.Subpath) string {
+	if shapeLabel != "" {
+		return shapeLabel
+	}
 	if len(sps) == 1 && len(sps[0].Segs) == 1 {
 		return curvefam.Class(sps[0].Segs[0])
 	}
 	return "multi-segment"
+}
+
+// shapeLabel, when set by a family, names the cases of that family in classes, maxima and
+// calibration cells instead of the lattice class (so that they are judged against C or their own
+// calibrated cell, not against the cell of the widest lattice class).
+var shapeLabel string
+
+func labelled(label string, f fw.Family) fw.Family {
+	chk := f.Check
+	f.Check = func(i int64, r *fw.R) {
+		shapeLabel = label
+		defer func() { shapeLabel = "" }()
+		chk(i, r)
+	}
+	return f
 }
 
 func kind(sps []oracle.Subpath) string {
@@ -176,6 +226,8 @@ func FlattenRatio(sps []oracle.Subpath, t float64) (float64, string) {
 }
 
 func checkFlatten(r *fw.R, sps []oracle.Subpath, t float64) {
+	curT, curRatio = t, 0
+	defer func() { curT, curRatio = 0, 0 }()
 	data := oracle.PathData(sps)
 	res := cv.Path(data).Flatten(t)
 	outData := res.Data()
@@ -214,6 +266,7 @@ func checkFlatten(r *fw.R, sps []oracle.Subpath, t float64) {
 				for k := 0; k+1 < len(curve); k++ {
 					d = math.Min(d, oracle.DistSeg(poly[bad], curve[k], curve[k+1]))
 				}
+				curRatio = d / t
 				viol(r, sps, "flatten-vertex-off-curve:"+sh, fmt.Sprintf("t=%g: vertex %d (%.9g,%.9g) of subpath %d is %.4g (= %.3g t) away from the curve; output %s", t, bad, poly[bad].X, poly[bad].Y, i, d, d/t, oracle.Fmt(outData)))
 			}
 		}
@@ -221,14 +274,16 @@ func checkFlatten(r *fw.R, sps []oracle.Subpath, t float64) {
 		worst, wi := oracle.MaxDistToPolyline(curve, poly, 0.25*t)
 		ratio := worst / t
 		worstRatio = math.Max(worstRatio, ratio)
-		if !(worst <= cLimit(sh, t/scaleOf(sps))*t+dev+1e-12*scale) {
+		curRatio = 0
+		if !(worst <= C*t+dev+1e-12*scale) {
+			curRatio = ratio
 			viol(r, sps, "flatten-curve-far-from-polyline:"+sh, fmt.Sprintf("t=%g: curve point (%.9g,%.9g) of subpath %d is %.6g (= %.4g t) away from the flattened path %s", t, curve[wi].X, curve[wi].Y, i, worst, ratio, oracle.Fmt(outData)))
 		}
 	}
 	r.Max("flatten_err/t:"+kd, worstRatio)
 	if !curvefam.ArcChordEqualsRx(sps) {
 		r.Max(fmt.Sprintf("flatten_err/t:%s@t=%g*scale", sh, t/scaleOf(sps)), worstRatio)
-		if !(worstRatio <= cLimit(sh, t/scaleOf(sps))) {
+		if !(worstRatio <= C) {
 			r.Count(fmt.Sprintf("flatten_err>Ct:%s@t=%g*scale", sh, t/scaleOf(sps)), 1)
 		}
 		r.Count(fmt.Sprintf("flatten_cases:%s@t=%g*scale", sh, t/scaleOf(sps)), 1)
@@ -579,7 +634,7 @@ func families(tier string) []fw.Family {
 			segFamily("arc(r in {.5,1,2,3}^2, rot {0,30,45,90,135}, flags, end [-2..2]^2)"+sfx, curvefam.NArc, arc, f, tols),
 		)
 	}
-	fs = append(fs, twoSegments(tols), twoSubpaths(tols), thinEllipses(tols))
+	fs = append(fs, twoSegments(tols), twoSubpaths(tols), thinEllipses(tols), nearCollinear(tier), largeFine(tier), lineBetweenCurves(tols))
 	return fs
 }
 
@@ -619,7 +674,7 @@ func Prop() *fw.Property {
 			"non-trivial = the flattening has interior vertices",
 		Assumptions: []string{
 			"'the error vanishes as t -> 0' is decided as: error <= C*t for every t of the finite menu (a strict decrease from t to t/10 is not implied by the statement, e.g. when both need a single chord)",
-			"C = 2.0 is fixed (not calibrated upwards); observed maxima of error/t per segment type are in observed_maxima",
+			"C = 2.0 for every curve (never calibrated upwards); the inputs for which the unchanged tree exceeds it are known findings listed one by one in c03_known_cases.json (path, tolerance, class, error/t), a listed input is swallowed only up to 1.05 x its listed error/t; observed maxima of error/t per segment type are in observed_maxima",
 			"dense curve = 16*sqrt(control polygon length / t) chords per curved segment (128..8192); its own deviation from the true curve is measured (oracle_dense_deviation/t) and added to the thresholds",
 			"zero-length segments are skipped; arcs are canonical as the builder stores them; arcs whose centre is ill-conditioned (radii within 1e-6 of, but not equal to, the minimum) are skipped and counted",
 		},
@@ -630,87 +685,32 @@ func Prop() *fw.Property {
 
 // ---- predicates for known_findings.json: computed from the input path of the case ("<path> t=<t>") ----
 
-func caseClasses(c string) (classes map[string]bool, sps []oracle.Subpath, t float64) {
-	classes = map[string]bool{}
-	i := strings.LastIndex(c, " t=")
-	if i < 0 {
-		return
-	}
-	t, _ = strconv.ParseFloat(strings.Fields(c[i+3:])[0], 64)
-	p, err := canvas.ParseSVGPath(c[:i])
-	if err != nil {
-		return
-	}
-	// the parser may simplify degenerate curves; classify from the numbers of the string itself for single segments
-	sps, err = oracle.Decode(p.Data())
-	if err != nil {
-		return
-	}
-	for _, sp := range sps {
-		for _, sg := range sp.Segs {
-			classes[curvefam.Class(sg)] = true
-		}
-	}
-	// degenerate curves the builder turns into lines or drops: read the control points from the text
-	if m := regexp.MustCompile(`^M0 0([QC])([-0-9.e ]+)$`).FindStringSubmatch(strings.TrimSpace(c[:i])); m != nil {
-		var nums []float64
-		for _, f := range strings.Fields(m[2]) {
-			v, _ := strconv.ParseFloat(f, 64)
-			nums = append(nums, v)
-		}
-		sg := oracle.Seg{}
-		if m[1] == "Q" && len(nums) == 4 {
-			sg = oracle.Seg{Kind: oracle.CmdQuad, C1: oracle.Pt{X: nums[0], Y: nums[1]}, P1: oracle.Pt{X: nums[2], Y: nums[3]}}
-		} else if m[1] == "C" && len(nums) == 6 {
-			sg = oracle.Seg{Kind: oracle.CmdCube, C1: oracle.Pt{X: nums[0], Y: nums[1]}, C2: oracle.Pt{X: nums[2], Y: nums[3]}, P1: oracle.Pt{X: nums[4], Y: nums[5]}}
-		}
-		if sg.Kind != 0 {
-			classes[curvefam.Class(sg)] = true
-		}
-	}
-	return
-}
-
 func knownPredicates() map[string]func(*fw.Violation) bool {
-	has := func(v *fw.Violation, names ...string) bool {
-		cl, _, _ := caseClasses(v.Case)
-		for _, n := range names {
-			if cl[n] {
-				return true
-			}
+	tagRe := regexp.MustCompile(`\{bucket=([^ ]+) ratio=([-+0-9.eInfNa]+)\}$`)
+	// the violation's input is listed for this class and its error/t is at most 1.05 x the listed one
+	listed := func(v *fw.Violation, bucket string) bool {
+		if knownErr != nil {
+			fmt.Fprintln(os.Stderr, "HARNESS-ERROR C03: c03_known_cases.json cannot be read:", knownErr)
+			os.Exit(2)
 		}
-		return false
+		m := tagRe.FindStringSubmatch(v.Detail)
+		if m == nil || m[1] != bucket {
+			return false
+		}
+		ceil, ok := knownCases[v.Case+"|"+v.Class]
+		ratio, err := strconv.ParseFloat(m[2], 64)
+		return ok && err == nil && ratio <= 1.05*ceil+1e-9
 	}
 	return map[string]func(*fw.Violation) bool{
 		// a Bezier whose control points are collinear with its end points (overshooting the chord), or whose end point is its start point
-		"collinear-or-closed-bezier": func(v *fw.Violation) bool {
-			return has(v, "quad-collinear", "cube-collinear", "quad-closed", "cube-closed")
-		},
-		"cusp-bezier": func(v *fw.Violation) bool { return has(v, "cube-cusp") },
+		"collinear-or-closed-bezier": func(v *fw.Violation) bool { return listed(v, "collinear-or-closed-bezier") },
+		"cusp-bezier":                func(v *fw.Violation) bool { return listed(v, "cusp-bezier") },
 		// an arc of an ellipse with an axis ratio below 10
-		"ellipse-arc": func(v *fw.Violation) bool {
-			_, sps, _ := caseClasses(v.Case)
-			for _, sp := range sps {
-				for _, sg := range sp.Segs {
-					if sg.Kind == oracle.CmdArc && sg.Rx != sg.Ry && sg.Rx < 10*sg.Ry && sg.Ry < 10*sg.Rx {
-						return true
-					}
-				}
-			}
-			return false
-		},
+		"ellipse-arc": func(v *fw.Violation) bool { return listed(v, "ellipse-arc") },
 		// an arc of an ellipse with an axis ratio of 10 or more
-		"thin-ellipse-arc": func(v *fw.Violation) bool {
-			_, sps, _ := caseClasses(v.Case)
-			for _, sp := range sps {
-				for _, sg := range sp.Segs {
-					if sg.Kind == oracle.CmdArc && (sg.Rx >= 10*sg.Ry || sg.Ry >= 10*sg.Rx) {
-						return true
-					}
-				}
-			}
-			return false
-		},
+		"thin-ellipse-arc": func(v *fw.Violation) bool { return listed(v, "thin-ellipse-arc") },
+		// any other listed input
+		"listed-bezier-or-arc": func(v *fw.Violation) bool { return listed(v, "other") },
 		// the eight mirror images of M0 0C1 2 2 -2 1 1 (times the coordinate scale) at a tolerance equal to the scale
 		"cubic-1-2-2-2-1-1-at-coarse-tolerance": func(v *fw.Violation) bool {
 			m := regexp.MustCompile(`^M0 0C([-0-9.e]+) ([-0-9.e]+) ([-0-9.e]+) ([-0-9.e]+) ([-0-9.e]+) ([-0-9.e]+) t=([-0-9.e]+)`).FindStringSubmatch(v.Case)
